@@ -66,7 +66,12 @@ func runInstCase(t *Traffic, op spectypes.OperatorID, r *hx.Rng) caseOut {
 	c := newCase(env, op, t.h, [][]byte{badValue}, false, policy == "none", false)
 	c.emit(c.resetLine(), "ok")
 	tags = append(tags, "case/inst", "scenario/"+t.scenario, "compaction/"+policy, fmt.Sprintf("n/%d", env.n))
+	pFault := []int{0, 0, 3, 8}[r.Intn(4)]
 	for _, o := range ops {
+		if r.Chance(pFault) {
+			c.nf = []string{"a", "b"}[r.Intn(2)]
+			tags = append(tags, "gen/network-fault-"+c.nf)
+		}
 		switch o.Kind {
 		case "start":
 			c.applyInstStart(o.Value, o.H)
@@ -98,7 +103,12 @@ func runCtrlCase(t *Traffic, op spectypes.OperatorID, r *hx.Rng) caseOut {
 	c := newCase(env, op, t.h, [][]byte{badValue}, true, false, policy == "runner")
 	c.emit(c.resetLine(), "ok")
 	tags = append(tags, "case/ctrl", "scenario/"+t.scenario, "compaction/"+policy, fmt.Sprintf("n/%d", env.n))
+	pFault := []int{0, 0, 3, 8}[r.Intn(4)]
 	for _, o := range ops {
+		if r.Chance(pFault) {
+			c.nf = []string{"a", "b"}[r.Intn(2)]
+			tags = append(tags, "gen/network-fault-"+c.nf)
+		}
 		switch o.Kind {
 		case "start":
 			c.applyCtrlStart(o.H, o.Value)
